@@ -337,5 +337,7 @@ def run(res, tier):
                 "at least one was dequeued")
     std.run_standard(res, PID, tier, area="event", build_impl=impl, gen_cases=gen_cases, oracle=oracle,
                      corr_name="EventModel vs src/event.cc, src/EventLoop.cc",
-                     gens=["event"], n_quick=30000, n_thorough=400000, seed_salt=59, mutate=mutate,
+                     gens=["event"], n_quick=20000, n_thorough=400000, seed_salt=59, mutate=mutate,
+                     # tests/stub_libmem.cc allocates 64 KB per pooled object: keep glibc from growing/trimming the heap each time
+                     impl_env={"MALLOC_TRIM_THRESHOLD_": "268435456", "MALLOC_TOP_PAD_": "67108864"},
                      kind_fn=kind, nontrivial_fn=nontrivial)
